@@ -24,7 +24,7 @@ ASSUMPTIONS = ['models are well-formed Dezyne (vf/gen_shell.py); a reference is 
                'a build that needs more than 30 s counts as a hang']
 SHARDS = {'quick': 8, 'thorough': 16}
 
-FAULTS = ['enc_unknown', 'enc_interface', 'enc_extern', 'enc_enum', 'enc_foreign',
+FAULTS = ['enc_unknown', 'enc_empty', 'enc_partial', 'port_elsewhere', 'formal_elsewhere', 'enc_interface', 'enc_extern', 'enc_enum', 'enc_foreign',
           'port_unresolvable', 'port_ambiguous', 'port_wrong_kind',
           'formal_unresolvable', 'formal_ambiguous', 'formal_wrong_kind',
           'sel_unknown_port', 'sel_both', 'sel_all_plus', 'sel_mixed_provides', 'sel_unassigned',
@@ -201,6 +201,35 @@ def apply_fault(sm, spec, fault, pick):
     if fault == 'enc_unknown':
         spec['enc'] = spec['enc'][:-1] + ['NoSuchComponent']
         return sm, spec
+    if fault == 'enc_empty':
+        # no name at all, in every spelling Builder.build accepts
+        spec['enc'] = []
+        spec['enc_as'] = [None, 'dotted', 'list', 'colons'][pick % 4]
+        return sm, spec
+    if fault == 'enc_partial':
+        # only the last identifier of a component that lives in a namespace
+        if len(spec['enc']) < 2:
+            return None
+        spec['enc'] = spec['enc'][-1:]
+        if len(lookup(decls, spec['enc'], [])) != 0:
+            return None
+        return sm, spec
+    if fault in ('port_elsewhere', 'formal_elsewhere'):
+        # a partially qualified name that resolves nowhere on the referring scope's chain, while a
+        # declaration of the right kind with exactly this name suffix exists in an unrelated branch
+        names = {i for d in decls for i in d['fqn']}
+        if names & {'Elsewhere9', 'Vendor9', 'Thing9'}:
+            return None
+        elem = {'k': 'interface', 'name': ['Thing9'], 'types': [], 'events': []} \
+            if fault == 'port_elsewhere' else {'k': 'extern', 'name': ['Thing9'], 'value': 'int'}
+        model['root'].append({'k': 'ns', 'ids': ['Elsewhere9'], 'elems': [
+            {'k': 'ns', 'ids': ['Vendor9'], 'elems': [elem]}]})
+        if fault == 'port_elsewhere':
+            if not table:
+                return None
+            enc['elem']['ports'][pick % len(table)]['type'] = ['Vendor9', 'Thing9']
+            return sm, spec
+        fault = 'formal_unresolvable_elsewhere'
     if fault.startswith('enc_'):
         kind = fault[4:]
         cands = [d for d in decls if d['kind'] == kind]
@@ -234,7 +263,7 @@ def apply_fault(sm, spec, fault, pick):
             if not _ambiguate(model, port['type'], enc['scope'], dup):
                 return None
         return sm, spec
-    if fault.startswith('formal_'):
+    if fault.startswith('formal_'):  # (also reached from formal_elsewhere above)
         # a formal of an event that the shell really uses: an MTS port's interface
         slots = []
         for p in table:
@@ -253,7 +282,9 @@ def apply_fault(sm, spec, fault, pick):
         if not slots:
             return None
         p, ev, f = slots[pick % len(slots)]
-        if fault == 'formal_unresolvable':
+        if fault == 'formal_unresolvable_elsewhere':
+            f['type'] = ['Vendor9', 'Thing9']
+        elif fault == 'formal_unresolvable':
             f['type'] = ['NoSuchType']
         elif fault == 'formal_wrong_kind':
             others = [d for d in decls if d['kind'] in ('enum', 'interface', 'component')]
